@@ -103,5 +103,12 @@ func c10(r *h.Result, rng *h.Rng, tier string, replay string) error {
 	if err := c10Leaves(r, rng.Fork(), per); err != nil {
 		return err
 	}
+	nj := 600
+	if tier != "quick" {
+		nj = 20000
+	}
+	if err := c10JsonParser(r, rng.Fork(), nj); err != nil {
+		return err
+	}
 	return nil
 }
